@@ -70,7 +70,7 @@ static void gfdef_run(Ctx& c) {
         GA.compute(); Pomerol::GreensFunction GA2(GA); GA2.prepare(); GA2.compute();    // copy of a computed object, driven again
         std::vector<Pomerol::GreensFunction> vec; vec.push_back(GA1); vec.push_back(GA2); vec[0].compute(); vec[1].compute();
         Pomerol::GreensFunction& GC = cont((Pomerol::ParticleIndex)i, (Pomerol::ParticleIndex)j);
-        TolG tol; tol.prepare(lehmann_terms(cL[(size_t)i], cdL[(size_t)j], lb.E, wlib));
+        TolG tol; tol.prepare(lehmann_terms(cL[(size_t)i], cdL[(size_t)j], lb.E, wlib)); tol.beta = beta;
         ndropped += (long)tol.Rsmall.size(); dropped_mass += tol.dropped_sum();
         std::string kind = (i == j) ? "diag" : "offdiag";
         bool any_nonzero = false;
